@@ -233,6 +233,41 @@ func runC07(res *lib.Result, tier string, seed int64, args []string) error {
 			res.AddViolation("impl-vs-spec", fmt.Sprintf("missing %v extra %v", missing, extra), src, false)
 		}
 	}
+	return c07RequireWorld(res)
+}
+
+// fixed world (every tier): require("b") loads a module, it does not define a global b — reads of b are undefined; a
+// module without a Lua file (require("lfs")) is the documented exemption
+func c07RequireWorld(res *lib.Result) error {
+	a := "require(\"b\")\nrequire(\"lfs\")\nlfs.mkdir(\"log\")\nlocal function f() return b.run() end\nprint(b, f)\n"
+	dir := lib.ScratchDir("c07rq")
+	defer os.RemoveAll(dir)
+	if err := lib.WriteWorkspace(dir, map[string]string{"a.lua": a, "b.lua": "local M = {}\nfunction M.run() return 1 end\nreturn M\n"}); err != nil {
+		return err
+	}
+	sess, err := lib.StartSession(dir, lib.AllChecksOptions())
+	if err != nil {
+		return err
+	}
+	defer sess.Close()
+	sess.DidOpen("a.lua", a)
+	sess.Sync()
+	got := map[string]bool{}
+	for _, d := range sess.DiagView()["a.lua"] {
+		if t := d.ErrType(); t == 2 || t == 3 {
+			got[fmt.Sprintf("t%d@%s", t, locOfRange(d.Range))] = true
+		}
+	}
+	var l []string
+	for k := range got {
+		l = append(l, k)
+	}
+	sort.Strings(l)
+	res.Count("require-world", true)
+	res.Dist("require-world")
+	if g, want := strings.Join(l, " "), "t2@4:26:4:27 t2@5:6:5:7"; g != want {
+		res.AddViolation("impl-vs-spec", fmt.Sprintf("a.lua requires the module b and reads a global b that no file defines: undefined-variable diagnostics [%s], expected [%s]", g, want), "-- a.lua\n"+a, false)
+	}
 	return nil
 }
 
